@@ -57,11 +57,13 @@ func (inv *Invoice) scenarioSummary() *tax.ScenarioSummary {
 func (inv *Invoice) removePreviousScenarioNotes(ss *tax.ScenarioSet) {
 	for _, sn := range ss.Notes() {
 		n := org.NoteFromScenario(sn)
-		for i, n2 := range inv.Notes {
-			if n.SameAs(n2) {
+		for i := 0; i < len(inv.Notes); {
+			if n.SameAs(inv.Notes[i]) {
 				// remove from array
 				inv.Notes = append(inv.Notes[:i], inv.Notes[i+1:]...)
+				continue
 			}
+			i++
 		}
 	}
 }
